@@ -308,6 +308,7 @@ type State struct {
 	DryDepth int
 	Dead     bool // path ended inside a simple instruction (e.g. definite panic)
 	AssumedFalse bool
+	Infeasible   bool // ended because a condition and its negation were both assumed
 	Effects  []string
 	ForkRes  Value
 	pendingForks       []*State
@@ -379,6 +380,18 @@ func (s *State) assume(t T) {
 		// counted (a vacuity guard reports such paths)
 		s.Dead = true
 		s.AssumedFalse = true
+	}
+	// a condition that is literally the negation of one already assumed (the
+	// same test taken both ways, e.g. an inlined callee returned a non-nil
+	// error and the caller's `err != nil` test is then assumed false): the
+	// path is infeasible and is ended
+	neg := Not(t).S
+	for _, c := range s.PC {
+		if c.S == neg {
+			s.Dead = true
+			s.Infeasible = true
+			break
+		}
 	}
 	s.PC = append(s.PC, t)
 }
